@@ -153,8 +153,16 @@ def runOp (st : St) (j : Json) : Except String (St × Json) := do
       | none => throw "bad other"
     | none => pure none
   let path ← argPath j "path"
-  let out := Composite.merge tgt other (← argKVsD j "processes") (← argKVsD j "topology")
-    (← argKVsD j "steps") (← argKVsD j "flow") (← argKVsD j "state") path (← argKVsD j "schema") st.ov
+  -- a loose part is either given in the request or is `<part>_from`'s own part dictionary
+  let looseVal (k : String) (sel : Composite → KVs) : Except String KVs := do
+    match ← natArg j (k ++ "_from") with
+    | some ci => match st.comps[ci]? with
+      | some c => return sel c
+      | none => throw "bad _from"
+    | none => argKVsD j k
+  let out := Composite.merge tgt other (← looseVal "processes" (·.processes))
+    (← looseVal "topology" (·.topology)) (← looseVal "steps" (·.steps)) (← looseVal "flow" (·.flow))
+    (← looseVal "state" (·.state)) path (← argKVsD j "schema") st.ov
   -- heap level: loose parts are new dictionaries unless `<part>_from: [comp, part index]`
   let mut h := st.heap
   let mut loose : List (Option Addr) := []
